@@ -1,6 +1,7 @@
 package mocrelay_test
 
 import (
+	"bytes"
 	"context"
 	"fmt"
 	"runtime"
@@ -362,7 +363,72 @@ func TestVerif_C15(t *testing.T) {
 		wg.Wait()
 		rep.Eval(1)
 	}
+	// (e) Restore of a dump much larger than the capacity while other sessions query:
+	// no answer may ever show more than capacity events (or break the other invariants)
+	for round := 0; round < vk.N(2, 30); round++ {
+		r := vk.RNG("C15/restore", round)
+		big := mocrelay.NewCacheHandler(5000)
+		g := vk.NewStoreGen(r, 3, 2000)
+		g.NoDeletion = true
+		src := vk.StartSession(ctx, big, 4)
+		for k := 0; k < 700; k++ {
+			src.Put(&mocrelay.ClientEventMsg{Event: g.Next()})
+			src.Get()
+		}
+		src.Stop()
+		var dump bytes.Buffer
+		if err := big.Dump(&dump); err != nil {
+			rep.Inconclusive("C15: dump failed: " + err.Error())
+			continue
+		}
+		capacity := 10 + r.IntN(40)
+		h := mocrelay.NewCacheHandler(capacity)
+		stop := atomic.Bool{}
+		var rd sync.WaitGroup
+		var bad atomic.Int64
+		for w := 0; w < 3; w++ {
+			rd.Add(1)
+			go func(w int) {
+				defer rd.Done()
+				s := vk.StartSession(ctx, h, 0)
+				defer s.Stop()
+				n := 0
+				for !stop.Load() {
+					n++
+					sub := fmt.Sprintf("r%d", n)
+					if !s.Put(&mocrelay.ClientReqMsg{SubscriptionID: sub, ReqFilters: []*mocrelay.ReqFilter{{}}}) {
+						return
+					}
+					var L []*mocrelay.Event
+					for {
+						m, ok := s.Get()
+						if !ok {
+							return
+						}
+						if _, is := m.(*mocrelay.ServerEOSEMsg); is {
+							break
+						}
+						if e, is := m.(*mocrelay.ServerEventMsg); is {
+							L = append(L, e.Event)
+						}
+					}
+					rep.Count("listings_during_restore", 1)
+					if sig, why := vk.CheckInvariants(capacity, L); sig != "" && bad.Add(1) <= 2 {
+						rep.Violation("concurrent/restore/"+sig, "a query answered while Restore was running: "+why, map[string]any{"capacity": capacity, "listed": len(L)})
+					}
+				}
+			}(w)
+		}
+		time.Sleep(time.Millisecond)
+		if err := h.Restore(bytes.NewReader(dump.Bytes())); err != nil {
+			rep.Inconclusive("C15: restore failed: " + err.Error())
+		}
+		stop.Store(true)
+		rd.Wait()
+		rep.Eval(1)
+	}
 	pc.report(rep)
+	rep.Require(rep.Counter("listings_during_restore") > 10, "listings during restore")
 	rep.Require(rep.Counter("router_sessions") > 500, "router sessions")
 	rep.Require(rep.Counter("porcupine_ok")+rep.Counter("porcupine_illegal") >= int64(nHist*95/100), "more than 5% of the histories were inconclusive")
 	rep.Require(rep.Counter("overlapping_operation_pairs") > int64(nHist), "too little overlap between clients")
